@@ -250,4 +250,5 @@ type File struct {
 	Defs      map[string]*Sentence // last definition of each name
 	Order     []string             // definition names in file order
 	Bad       []Sentence           // sentences that do not parse
+	Imports   map[string]*File     // Go package name -> emitted file of that package (for qualified identifiers pkg.Name)
 }
